@@ -162,6 +162,7 @@ def run_property(prop, tier, seed, only=None, jobs=None, budget_scale=1.0):
             "stubs": list(ob.stubs),
             "paths": sum(r["paths"] for r in rs),
             "completed": sum(r["completed"] for r in rs),
+            "runs_of_real_code": sum(r.get("runs", 0) for r in rs),
             "discarded_by_assume": sum(r["discarded"] for r in rs),
             "unknown": sum(r["unknown"] for r in rs),
             "tolerated_known": sum(r["tolerated"] for r in rs),
